@@ -45,10 +45,10 @@ PY
 fi
 with=; without=
 if [ $ok = 1 ]; then
-  cp $src/demo_test.go $wt/internal/server/seed_demo_test.go
-  wf=0; for i in 1 2 3; do ( cd $wt && go test -vet=off -count=1 -run 'TestSeedDemo' ./internal/server/ ) >>$out 2>&1 || wf=$((wf+1)); done
+  cp $src/demo_test.go $wt/${DEMO_PKG:-internal/server}/seed_demo_test.go
+  wf=0; for i in 1 2 3; do ( cd $wt && go test -vet=off -count=1 -run 'TestSeedDemo' ./${DEMO_PKG:-internal/server}/ ) >>$out 2>&1 || wf=$((wf+1)); done
   ( cd $wt && { [ -f $src/patch.rebased.diff ] && git apply -R $src/patch.rebased.diff || git apply -R $src/patch.diff; } ) >>$out 2>&1
-  wp=0; for i in 1 2 3; do ( cd $wt && go test -vet=off -count=1 -run 'TestSeedDemo' ./internal/server/ ) >>$out 2>&1 && wp=$((wp+1)); done
+  wp=0; for i in 1 2 3; do ( cd $wt && go test -vet=off -count=1 -run 'TestSeedDemo' ./${DEMO_PKG:-internal/server}/ ) >>$out 2>&1 && wp=$((wp+1)); done
   echo "$name: baseline_passes=$base_pass demo_fails_with_patch=$wf/3 demo_passes_without=$wp/3"
   if [ $wf = 3 ] && [ $wp = 3 ]; then
     mkdir -p /verif/seeded/$name
